@@ -158,26 +158,26 @@ def construct_volume(direction, *args, **kwargs):
         size_u, size_v, size_w = size_other, args[0].ctrlpts_size_u, args[0].ctrlpts_size_v
         kv_u, kv_v, kv_w = knotvector_other, args[0].knotvector_u, args[0].knotvector_v
         # u => w, v => u, w => v
-        for v in range(0, size_v):
-            for w in range(0, size_w):
-                for u in range(0, size_u):
-                    temp_pt = new_ctrlpts[v + (u * size_v) + (w * size_u * size_v)]
+        for w in range(0, size_w):
+            for u in range(0, size_u):
+                for v in range(0, size_v):
+                    temp_pt = new_ctrlpts[w + (v * size_w) + (u * size_v * size_w)]
                     updated_ctrlpts.append(temp_pt)
                     if rational:
-                        temp_w = new_weights[v + (u * size_v) + (w * size_u * size_v)]
+                        temp_w = new_weights[w + (v * size_w) + (u * size_v * size_w)]
                         updated_weights.append(temp_w)
     elif direction == 'v':
         degree_u, degree_v, degree_w = args[0].degree_u, degree_other, args[0].degree_v
         size_u, size_v, size_w = args[0].ctrlpts_size_u, size_other, args[0].ctrlpts_size_v
         kv_u, kv_v, kv_w = args[0].knotvector_u, knotvector_other, args[0].knotvector_v
         # u => u, v => w, w => v
-        for v in range(0, size_v):
+        for w in range(0, size_w):
             for u in range(0, size_u):
-                for w in range(0, size_w):
-                    temp_pt = new_ctrlpts[v + (u * size_v) + (w * size_u * size_v)]
+                for v in range(0, size_v):
+                    temp_pt = new_ctrlpts[w + (u * size_w) + (v * size_u * size_w)]
                     updated_ctrlpts.append(temp_pt)
                     if rational:
-                        temp_w = new_weights[v + (u * size_v) + (w * size_u * size_v)]
+                        temp_w = new_weights[w + (u * size_w) + (v * size_u * size_w)]
                         updated_weights.append(temp_w)
     else:  # direction == 'w'
         degree_u, degree_v, degree_w = args[0].degree_u, args[0].degree_v, degree_other
